@@ -459,7 +459,7 @@ func (b *bmcSys) unrollAndSolve() {
 			// this step fires (only transitions that read the clock can tell, so the
 			// delay is forced to zero for the others - this keeps them independent)
 			laxDelta = f.Var(fmt.Sprintf("tick.delta@%d", k), term.BV(clockW))
-			assert(f.ULe(laxDelta, f.BVC(clockW, 4096)))
+			assert(f.ULe(laxDelta, f.BVC(clockW, 2*maxDur)))
 			mp[b.now] = f.Add(u.cur[b.now], laxDelta)
 			u.stepInputs[k] = append(u.stepInputs[k], laxDelta)
 		}
@@ -530,7 +530,7 @@ func (b *bmcSys) unrollAndSolve() {
 			d := f.Var(fmt.Sprintf("tick.delta@%d", k), term.BV(clockW))
 			is := f.Eq(sch, f.IntC(int64(tick)))
 			assert(f.Implies(is, f.ULt(f.BVC(clockW, 0), d)))
-			assert(f.ULe(d, f.BVC(clockW, 4096))) // 24-bit clock, ticks <= 4096, K <= a few hundred steps: no wrap-around
+			assert(f.ULe(d, f.BVC(clockW, 2*maxDur))) // 40-bit clock, ticks <= 2^31, K <= a few hundred steps: no wrap-around
 			if b.clock == 2 {
 				// urgent clock: only when nothing else can move, and exactly to the earliest deadline
 				assert(f.Implies(is, sub(b.urgentGuard(d))))
@@ -745,13 +745,23 @@ func (b *bmcSys) decode(u *unroller, label string, bad *term.T) *Violation {
 		b.res.Unknown = append(b.res.Unknown, "decode: "+err.Error())
 		return v
 	}
+	// virtual time at which each step fires (lax clock: sum of the per-step delays)
+	cum := int64(0)
 	for k, sv := range u.sch {
 		id := int(vals[sv].I)
 		if id == u.stutter {
 			break
 		}
+		at := ""
+		if b.clock == 1 && k < len(u.stepInputs) && len(u.stepInputs[k]) > 0 {
+			d := u.stepInputs[k][len(u.stepInputs[k])-1]
+			if dv, err := b.s.Values([]*term.T{d}); err == nil {
+				cum += int64(dv[d].V)
+			}
+			at = fmt.Sprintf(" @t=%d", cum)
+		}
 		if id < len(b.trans) {
-			v.Trace = append(v.Trace, fmt.Sprintf("%02d %s", k, b.trans[id].label))
+			v.Trace = append(v.Trace, fmt.Sprintf("%02d %s%s", k, b.trans[id].label, at))
 			for _, c := range b.trans[id].choices {
 				choiceVals[fmt.Sprintf("%s#%d", c[0], choiceCnt[c[0]])] = c[1]
 				choiceCnt[c[0]]++
